@@ -241,8 +241,12 @@ struct Sim {
 inline bool simApplyBlock(const World& w, Sim& s, int x) {
   Sim saved = s;
   for (int g = 0; g < 2; g++) {
-    const GroupSpec& sp = w.t->spec[x][g];
+    GroupSpec sp = w.t->spec[x][g];
     if (!sp.present) continue;
+    // the specification runs on concrete numbers: case split on the (possibly symbolic) placement fields
+    sp.btcPrev = (uint8_t)__verif_concretize(sp.btcPrev);
+    sp.endorsed = (uint8_t)__verif_concretize(sp.endorsed);
+    sp.bop = (uint8_t)__verif_concretize(sp.bop);
     bool ok = true;
     int pos = 1;
     if (sp.failPos == pos) ok = false;
